@@ -3,6 +3,7 @@
   differential execution on every input of the run) against the reference decoder.
 -/
 import Pdlv.Lemmas.CxxAgree
+import Pdlv.Lemmas.CxxView
 
 namespace Pdlv
 namespace Cxx
@@ -37,6 +38,45 @@ theorem struct_parser_no_undefined_behaviour (c : Cfg) (nm : String) (items : It
   rw [e] at hq
   rw [hq] at this
   simp [Outcome.isPanic] at this
+
+/-- **C14, packet views: conformance.**  For every packet without parent in the class `Cxx.vwfBody` (decidable,
+    evaluated per run: the struct-parser class with arrays of scalars of at least one octet only — the view
+    parser validates no array element and the getters are lenient, so arrays of enums and structs are the
+    recorded deviations KF-C14-enum-array / -struct-array-*), both byte orders and EVERY byte string shorter
+    than 2^64 octets: `TView::Create(bytes).IsValid()` holds exactly when the reference `decode_full` accepts the
+    octets, and then the getters (`GetX()`, which parse the kept slices again) return the reference's field
+    values. -/
+theorem view_agrees_with_reference (c : Cfg) (nm : String) (items : Items)
+    (hw : vwfBody (.root nm items) = true) (bs : Bytes) (hb : bs.length < usizeMax) (v : Value) :
+    viewDecode c (.root nm items) bs = .ok v ↔
+      Pdlv.decodeFull { e := c.e, mode := .ideal } (.root nm items) bs = .ok v :=
+  (view_refines_reference c nm items hw bs hb).1 v
+
+/-- **C14, packet views: no undefined behaviour.**  On the same class (and `decWfBody`), constructing a view
+    over ANY byte string and calling its getters reaches no slice accessor called beyond its slice, no remainder
+    by zero and no endless loop — in the parser (`read_le` / `subrange` / `skip` behind the size checks of
+    `parse_array_field_lite`) or in a getter (whose failed assertion would surface only on a valid view). -/
+theorem view_no_undefined_behaviour (c : Cfg) (nm : String) (items : Items)
+    (hw : vwfBody (.root nm items) = true) (hd : decWfBody (.root nm items) = true)
+    (bs : Bytes) (hb : bs.length < usizeMax) (h : Hazard) :
+    viewDecode c (.root nm items) bs ≠ .panic h := by
+  intro hp
+  obtain ⟨h', hq⟩ := (view_refines_reference c nm items hw bs hb).2 h hp
+  have := decode_full_no_panic_ideal c.e (.root nm items) hd bs
+  have e : Py.ideal c = { e := c.e, mode := .ideal } := rfl
+  rw [e] at hq
+  rw [hq] at this
+  simp [Outcome.isPanic] at this
+
+/-- **KF-C14-enum-array**: `enum E : 8 { A = 1 } packet P { a: E[] }` — the view over `05 01` is valid although 5
+    is not a value of the closed enum, and the getter returns it -/
+theorem view_does_not_validate_enum_elements :
+    let en : Enum.Decl := { width := 8, tags := [.value { id := "A", value := 1 }] }
+    (viewDecode { e := .little } (.root "P" (.cons (.array "a" (.enumTy "E" en) (.static 1) .unknown none) .nil))
+      [5, 1]).isOk = true ∧
+    (Pdlv.decodeFull { e := .little, mode := .ideal }
+      (.root "P" (.cons (.array "a" (.enumTy "E" en) (.static 1) .unknown none) .nil)) [5, 1]).isOk = false := by
+  refine ⟨by rfl, by rfl⟩
 
 /-! ### the recorded deviations, as theorems about the model (each is replayed on the emitted code) -/
 
@@ -73,6 +113,15 @@ example :
       (.cons (.chunk [.flag "c" [("o", 1)], .reserved 7]) (.cons (.optional "o" (.scalar 8) "c" 1) .nil)))
     wfBody (.root "S" items) = true ∧ decWfBody (.root "S" items) = true ∧
     (Cxx.decBody { e := .little } (.root "S" items) [1, 7, 0x34, 0x12, 1, 9]).isOk = true := by
+  refine ⟨by decide, by decide, by rfl⟩
+
+/-! … and `packet P { _count_(a): 8, t: 8, a: 16[], _size_(_payload_): 8, _payload_ }` is in the class of views -/
+example :
+    let items : Items := .cons (.chunk [.count "a" 8, .scalar "t" 8])
+      (.cons (.array "a" (.scalar 16) (.static 2) .countField none)
+      (.cons (.chunk [.size "_payload_" 8 0]) (.cons (.payload (.sized 0)) .nil)))
+    vwfBody (.root "P" items) = true ∧ decWfBody (.root "P" items) = true ∧
+    (viewDecode { e := .little } (.root "P" items) [1, 7, 0x34, 0x12, 1, 0xaa]).isOk = true := by
   refine ⟨by decide, by decide, by rfl⟩
 
 end Cxx
